@@ -430,3 +430,57 @@ class ModifierApply(Contract):
 
     def frame_ok(self, I, inp, obj, name):
         return False
+
+
+@register
+class RegexInsertPlaceholders(Contract):
+    """SigmaRegularExpression.insert_placeholders (the expand modifier on a regular expression): the SAME object, with the pattern's
+    placeholders inserted - its flags (set by i / m / s earlier in the chain) are kept"""
+    id = "C03.SigmaRegularExpression.insert_placeholders"
+    target = "sigma.types:SigmaRegularExpression.insert_placeholders"
+    props = ("C03", "C17")
+    cases = ((), ("IGNORECASE",), ("MULTILINE", "DOTALL"))
+    assumed = ["SigmaString.insert_placeholders is abstract here (the regex-based scan is covered by the bounded stand-in); compile() accepts the pattern"]
+
+    def setup(self, E):
+        E.summaries["sigma.types:SigmaRegularExpression.compile"] = lambda I, so, a, k: None
+        E.summaries["sigma.types:SigmaString"] = lambda I, so, a, k: SObj("NewSigmaString", {"of": a[0] if a else None})
+
+    def args(self, I, case):
+        idx = I.E.index
+        F = ClassRef(idx.lookup("sigma.types:SigmaRegularExpressionFlag"))
+        flags = {ops.getattr_(I, F, n, None) for n in case}
+        withph = SObj(idx.lookup("sigma.types:SigmaString"), {"s": ["a", "b"]}, lazy=True)
+        pat = SObj(idx.lookup("sigma.types:SigmaString"), {"insert_placeholders": NativeFn("ip", lambda I2, a, k: withph), "__str__": NativeFn("__str__", lambda I2, a, k: I2.fresh("flattened", "str"))}, lazy=True)
+        me = SObj(idx.lookup("sigma.types:SigmaRegularExpression"), {"regexp": pat, "flags": set(flags)}, lazy=True)
+        return {"self": me, "args": [], "withph": withph, "flags": flags}
+
+    def post(self, I, inp, r):
+        ok = isinstance(r, SObj) and getattr(r.cls, "name", None) == "SigmaRegularExpression"
+        I.ctx.require(ok, "a regular expression")
+        if ok:
+            I.ctx.require(r.fields.get("regexp") is inp["withph"], "its pattern is the pattern with placeholders inserted")
+            I.ctx.require(isinstance(r.fields.get("flags"), set) and r.fields["flags"] == inp["flags"], "its flags are the flags the expression had")
+
+    def frame_ok(self, I, inp, obj, name):
+        return obj is inp["self"] and name == "regexp"
+
+
+@register
+class ExpandModify(Contract):
+    """SigmaExpandModifier.modify: the value with its placeholders inserted - whatever insert_placeholders of THAT value returns"""
+    id = "C03.SigmaExpandModifier.modify"
+    target = f"{MODS}:SigmaExpandModifier.modify"
+    props = ("C03", "C17")
+
+    def args(self, I):
+        out = SObj("WithPlaceholders", {})
+        val = SObj("Value", {"insert_placeholders": NativeFn("ip", lambda I2, a, k: out)})
+        me = SObj(I.E.index.lookup(f"{MODS}:SigmaExpandModifier"), {}, lazy=True)
+        return {"self": me, "args": [val], "out": out}
+
+    def post(self, I, inp, r):
+        I.ctx.require(r is inp["out"], "the result of the value's own insert_placeholders")
+
+    def frame_ok(self, I, inp, obj, name):
+        return False
